@@ -331,3 +331,193 @@ Example C02_ex3_bad_pop :
   | _ => False
   end.
 Proof. vm_compute. split; [reflexivity|exact I]. Qed.
+
+(* ------------------------------------------------------------------------------------------------
+   (2) "the metadata is complete", as theorems about the model of the runtime's stream.json handling
+   (added after the summaries above were written).
+
+   Model: Rt/RtMetaDefs.v.  A JSON tree, parson's json_object_set_value / dotset_value / dotget_value on
+   dotted names (first match wins, overwrite in place, append otherwise, a prefix that names a non-object
+   fails, missing prefixes become objects), and the metadata state machine of src/rt/ovni.c: every call
+   either aborts the process (die()) or returns with the new tree and the FILE WRITE it made, if any
+   (ovni_thread_init stores before the implicit require of "ovni"; ovni_attr_flush stores; ovni_thread_free
+   sets rank, loom_cpus and ovni.finished = 1 and stores; nothing else stores, ovni_flush included).
+   A program is the call list of one process over thread slots (thread state is TLS); `run` gives one event
+   per executed call; `writes p evs` are the stores in order, `tagged` pairs each with its call; the content
+   of thread.<tid>/stream.json after any prefix is the last store for that tid.
+   Tied to libovni.so by lib/checks/c02.py (family rtmeta): same programs on the real library, stream.json
+   read back after every call and compared as a tree, member order included; die() <-> SIGABRT.
+
+   meta_conformant p (the documented protocol, doc/user/runtime/index.md): ovni_proc_init first (app > 0,
+   pid > 0, loom name without '/', at most 250 bytes), ovni_proc_fini last, in between every thread slot does
+   ovni_thread_init(tid > 0, tids distinct) first and ovni_thread_free last (before the fini) and in between
+   only: ovni_add_cpu(index >= 0, phyid >= 0), ovni_proc_set_rank(0 <= rank < nranks), ovni_thread_require
+   (model of 2..114 bytes without ' ' and '.', version that version_parse accepts), ovni_attr_set_* on names
+   whose first component is neither "ovni" nor "version", ovni_attr_has / get_*, ovni_attr_flush, ovni_flush.
+
+   to_loader_meta projects a stored tree to what the emulator's look-ups return (Emu/LoaderMetaDefs.meta);
+   meta_check is C12's model of the emulator's metadata gates (stream.c load_json / check_version, system.c
+   is_thread_stream, loom / proc / thread metadata, report_libovni_version, proc_init_end, model.c
+   should_enable's "ovni.require").
+
+   Trusted here: json_serialize_to_file_pretty followed by json_parse_file_with_comments gives back the tree
+   (m_parses = true); the tie compares the text with Python's parser.  Not modelled: non-ASCII strings,
+   non-integral numbers, OVNI_TMPDIR, the mark API (C17), I/O faults (C10).
+   Still by execution only (the Python decider of the rtmeta family, on the real files): per-loom
+   completeness of ovni.loom_cpus (union over the loom's threads = the CPUs registered), rank / nranks. *)
+From OV Require Rt.RtMetaDefs Proofs.RtMetaProofs.
+From OV Require Import Emu.LoaderMetaDefs.
+
+Module Meta.
+Import RtMetaDefs RtMetaProofs.
+
+(* Every program that follows the protocol (any number of threads, any interleaving, any user attributes):
+   - never leaves the modelled domain and aborts, if at all, inside an ovni_attr_* call (set through a
+     non-object, unparsable JSON, get of a missing or mistyped name: documented aborts);
+   - if it runs to the end: a store carries ovni.finished = 1 iff it is the one of ovni_thread_free (tagprop),
+     and for each thread the stores to its stream.json are  earlier ++ [last]  with earlier non-empty (the
+     store of ovni_thread_init), no element of earlier mentioning ovni.finished (C09's reading: finished
+     appears only with the final store, after which the thread writes nothing), and last passing all the
+     emulator's metadata gates: meta_check .. = MetaOk (version 3, part "thread", loom, pid, tid, app_id,
+     finished = 1, lib.version, lib.commit, require). *)
+Theorem C02_metadata_complete : forall c p evs sf,
+  VersionDefs.version_parse (Some (c_model_version c)) <> None ->
+  meta_conformant p = true ->
+  run c p = (evs, sf) ->
+  (forall o, stop_op p evs = Some o -> is_attr_op o = true) /\
+  (completed evs = true ->
+   length evs = length p /\
+   Forall tagprop (tagged p evs) /\
+   forall th tid, In (th, ThreadInit tid) p -> last_write_complete (writes p evs) tid).
+Proof. exact metadata_complete. Qed.
+Print Assumptions C02_metadata_complete.
+
+(* Bridge to C02_conformant_accepted (above): what that theorem assumes about the static description of the
+   trace and what the final metadata provides.  PROVIDED: the stream's tid and pid are those of the calls and
+   not 0 (hypotheses ti_tid ti <> 0, ti_pid ti <> 0), loom and app id are those of ovni_proc_init with
+   app > 0 (proc_init_end), "ovni.require" is an object with string entries (model.c can probe every model;
+   the base model M_OVNI is enabled whatever it says, C14).  REMAINING hypotheses of C02_conformant_accepted,
+   not derived from the runtime's metadata here: find_cpu sx loom idx <> None for the CPUs used in OHx (needs
+   the per-loom union of ovni.loom_cpus: Emu/MetaDefs.build, C15; checked by execution), s_chans sx = mk_chans
+   en ++ mark_chans ms with the mark types of ovni.mark.* (C17: C02_merged_mark_types), s_threads sx = [ti]
+   (one stream in the composition). *)
+Theorem C02_metadata_bridge : forall c p evs sf th0 app loom pid rest,
+  VersionDefs.version_parse (Some (c_model_version c)) <> None ->
+  meta_conformant p = true -> run c p = (evs, sf) -> completed evs = true ->
+  p = (th0, ProcInit app loom pid) :: rest ->
+  forall th tid, In (th, ThreadInit tid) p ->
+  exists last, disk (writes p evs) tid = Some last /\
+    m_tid (to_loader_meta last) = JNum tid /\ tid <> 0 /\
+    m_pid (to_loader_meta last) = JNum pid /\ pid <> 0 /\
+    m_loom (to_loader_meta last) = JStr loom /\ m_app_id (to_loader_meta last) = JNum app /\ 0 < app /\
+    m_require (to_loader_meta last) = JObj /\ to_thread_req last <> None.
+Proof. exact metadata_bridge. Qed.
+Print Assumptions C02_metadata_bridge.
+
+(* The attribute API on a tree: get after set, for every name the set accepts (empty components, any depth) *)
+Theorem C02_attr_get_after_set : forall fs k v fs',
+  attr_set fs k v = Some fs' -> attr_get fs' k = Some v /\ attr_has fs' k = true.
+Proof. exact attr_get_has_after_set. Qed.
+Print Assumptions C02_attr_get_after_set.
+
+(* ... and every name that parts from k at some component keeps its value (names of which k is a prefix, or
+   that are a prefix of k, do change: they contain / are contained in the new value) *)
+Theorem C02_attr_set_other_names : forall fs k v fs' k2,
+  attr_set fs k v = Some fs' -> diverge (split_dots k) (split_dots k2) -> attr_get fs' k2 = attr_get fs k2.
+Proof. exact attr_get_set_other. Qed.
+Print Assumptions C02_attr_set_other_names.
+
+(* What the code guarantees about the reserved part: an attribute whose first component is neither "ovni" nor
+   "version" leaves both members untouched ... *)
+Theorem C02_user_attr_keeps_reserved : forall fs k v fs',
+  user_key k = true -> attr_set fs k v = Some fs' ->
+  fget fs' k_ovni = fget fs k_ovni /\ fget fs' k_version = fget fs k_version.
+Proof. exact user_attr_keeps_reserved. Qed.
+Print Assumptions C02_user_attr_keeps_reserved.
+
+(* ... and NOTHING more: ovni_attr_set_* does not refuse names under "ovni." (there is no such check in
+   src/rt/ovni.c; the documentation does not promise one either).  A program that follows the protocol except
+   for one such attribute (1) has stream.json say ovni.finished = 1 after an ovni_attr_flush, before
+   ovni_thread_free, (2) ends with a file the emulator refuses (ovni.tid = 0).  Both replayed on libovni.so by
+   the rtmeta family (classes malformed:reserved-then-flush, malformed:reserved-key). *)
+Theorem C02_reserved_keys_not_refused_refuted :
+  meta_conformant good_prog = true /\
+  (let (evs, _) := run ex_cfg early_prog in
+   completed evs = true /\
+   exists w, In (AttrFlush, w) (tagged early_prog evs) /\ finished_mark (snd w) = JNum 1) /\
+  (let (evs, _) := run ex_cfg clobber_prog in
+   completed evs = true /\
+   exists last, disk (writes clobber_prog evs) 100 = Some last /\
+                meta_check (to_loader_meta last) true = MetaErr MNoTid).
+Proof. exact reserved_keys_not_refused. Qed.
+Print Assumptions C02_reserved_keys_not_refused_refuted.
+
+(* PARTIAL (tree level): the full statement would be "for every protocol-following program the last store of thread th
+   reads back as mkS loom pid tid (Some app) <rank set by th> <CPUs registered by th, in order>", which with C15's merge
+   (Emu/MetaDefs.build) would give per-loom completeness of ovni.loom_cpus.  Proved here: the step from the tree of a
+   live thread to the store of ovni_thread_free, under the side conditions that ovni.rank / nranks / loom_cpus are still
+   unset; that these hold for every live thread of a protocol-following program (only ovni_thread_free sets them, user
+   attributes cannot: C02_user_attr_keeps_reserved) is NOT carried through the run invariant of C02_metadata_complete.
+   Per-loom completeness on the real files is judged by the Python decider of the rtmeta family. *)
+Theorem C02_thread_free_stream_meta_partial : forall c app loom pid t tid,
+  holds (t_meta t) (core c app loom pid tid) -> has_req (t_meta t) ->
+  pget (t_meta t) [k_ovni; k_rank] = None -> pget (t_meta t) [k_ovni; k_nranks] = None ->
+  pget (t_meta t) [k_ovni; k_loom_cpus] = None ->
+  exists fs', free_tree t = Some fs' /\
+    to_stream_meta (jobj fs') =
+    Some (MetaDefs.mkS loom pid tid (Some app)
+            (match t_rank t with Some (r, _) => Some r | None => None end)
+            (match t_rank t with Some (_, n) => Some n | None => None end)
+            (match t_cpus t with [] => None | _ :: _ => Some (t_cpus t) end)).
+Proof. exact free_tree_stream_meta. Qed.
+Print Assumptions C02_thread_free_stream_meta_partial.
+
+(* non-vacuity: two threads of one process, interleaved; thread 0 registers CPU 0 and requires nosv, thread 1
+   registers CPU 1, sets the rank, both set attributes (a dotted name with an empty component among them) and
+   one flushes them half-way *)
+Definition ex4_prog : prog :=
+  [(0%nat, ProcInit 1 ex_loom 100); (0%nat, ThreadInit 100); (1%nat, ThreadInit 101);
+   (0%nat, AddCpu 0 0); (1%nat, AddCpu 1 1); (0%nat, Require [110; 111; 115; 118] [50; 46; 52; 46; 48]);
+   (1%nat, ProcSetRank 0 2); (0%nat, AttrSetStr [110; 111; 115; 118; 46; 108; 105; 98; 95; 118; 101; 114; 115; 105; 111; 110] [51; 46; 48]);
+   (1%nat, AttrSetBool [97; 46; 46; 98] true); (1%nat, AttrFlush); (1%nat, AttrGetBool [97; 46; 46; 98]);
+   (0%nat, AttrSetJson [97; 112; 112; 46; 99; 102; 103] (jobj [([120], jarr [jnum 1; jnull])])); (0%nat, Flush);
+   (1%nat, ThreadFree); (0%nat, AttrHas [97; 112; 112; 46; 99; 102; 103; 46; 120]); (0%nat, ThreadFree); (0%nat, ProcFini)].
+
+Example C02_ex4_conformant : meta_conformant ex4_prog = true.
+Proof. vm_compute. reflexivity. Qed.
+
+Example C02_ex4_run :
+  let (evs, _) := run ex_cfg ex4_prog in
+  completed evs = true /\ length (writes ex4_prog evs) = 5%nat /\
+  match disk (writes ex4_prog evs) 100, disk (writes ex4_prog evs) 101 with
+  | Some a, Some b => meta_check (to_loader_meta a) true = MetaOk /\ meta_check (to_loader_meta b) true = MetaOk /\
+                      to_stream_meta a = Some (MetaDefs.mkS ex_loom 100 100 (Some 1) None None (Some [(0, 0)])) /\
+                      to_stream_meta b = Some (MetaDefs.mkS ex_loom 100 101 (Some 1) (Some 0) (Some 2) (Some [(1, 1)]))
+  | _, _ => False
+  end.
+Proof. vm_compute. repeat split. Qed.
+
+(* the same through the theorem *)
+Example C02_ex4_by_theorem : forall evs sf, run ex_cfg ex4_prog = (evs, sf) ->
+  completed evs = true -> last_write_complete (writes ex4_prog evs) 100 /\ last_write_complete (writes ex4_prog evs) 101.
+Proof.
+  intros evs sf R CO.
+  destruct (C02_metadata_complete ex_cfg ex4_prog evs sf) as (_ & H); [vm_compute; discriminate|vm_compute; reflexivity|exact R|].
+  destruct (H CO) as (_ & _ & W).
+  split; [apply (W 0%nat); right; left; reflexivity|apply (W 1%nat); right; right; left; reflexivity].
+Qed.
+
+(* the merge of the two streams (C15's model of system.c / loom.c) accepts them: one loom with CPUs 0 and 1 *)
+Example C02_ex4_merge :
+  MetaDefs.build [MetaDefs.mkS ex_loom 100 100 (Some 1) None None (Some [(0, 0)]);
+                  MetaDefs.mkS ex_loom 100 101 (Some 1) (Some 0) (Some 2) (Some [(1, 1)])]
+  = MetaDefs.Ok [(ex_loom, [(100, 1, [100; 101])], [(0, 0); (1, 1)])].
+Proof. vm_compute. reflexivity. Qed.
+
+(* a protocol-following program may abort in an attribute call, and only there *)
+Example C02_ex_abort_in_attr :
+  let p := [(0%nat, ProcInit 1 ex_loom 100); (0%nat, ThreadInit 100); (0%nat, AttrSetStr [112] [120]);
+            (0%nat, AttrSetStr [112; 46; 113] [121]); (0%nat, ThreadFree); (0%nat, ProcFini)] in
+  meta_conformant p = true /\ stop_op p (fst (run ex_cfg p)) = Some (AttrSetStr [112; 46; 113] [121]).
+Proof. vm_compute. split; reflexivity. Qed.
+End Meta.
